@@ -36,6 +36,11 @@ def cases(rng, tier):
             extra = rng.choice([1, 2, 7])
             nb = b[:pos] + (v + extra).to_bytes(2, "big") + b[pos + 2:pos + 2 + v] + rng.bytes(extra) + b[pos + 2 + v:]
             out.append("PARSE " + nb.hex())
+            # the same with surplus that looks like padding (all zero, all ones), 1..4 octets of it
+            for extra in (1, 2, 3, 4):
+                fill = rng.choice([b"\x00", b"\x00", b"\xff"]) * extra
+                nb = b[:pos] + (v + extra).to_bytes(2, "big") + b[pos + 2:pos + 2 + v] + fill + b[pos + 2 + v:]
+                out.append("PARSE " + nb.hex())
             # RDLENGTH smaller than the content (content then runs into the next record)
             if v > 0:
                 out.append("PARSE " + (b[:pos] + (v - 1).to_bytes(2, "big") + b[pos + 2:]).hex())
@@ -58,6 +63,17 @@ def cases(rng, tier):
             hdr = b"\x00\x07\x81\x80\x00\x00\x00\x00\x00\x00" + len(adds).to_bytes(2, "big")
             out.append("PARSE " + (hdr + b"".join(adds)).hex())
         out.append("PARSE " + (b"\x00\x07\x81\x80\x00\x00\x00\x01\x00\x01\x00\x02" + r2 + r1 + a_rr + r1).hex())
+    # an OPT record (anywhere) whose RDATA is complete options followed by 1..3 octets that are not an option, then more entries
+    for optbody in (b"\x00\x0a\x00\x02\xab\xcd", b"\x00\x0c\x00\x00", b"\x00\x08\x00\x04\x00\x01\x00\x00" + b"\x00\x0a\x00\x01\x07"):
+        for pad in (b"\x00", b"\x00\x00", b"\x00\x00\x00", b"\xff", b"\x00\x01\x00"):
+            rd = optbody + pad
+            optrr = b"\x00\x00\x29\x04\xd0\x00\x00\x00\x00" + len(rd).to_bytes(2, "big") + rd
+            for (pre, post) in (([], [a_rr]), ([a_rr], [a_rr, a_rr]), ([], [])):
+                adds = pre + [optrr] + post
+                hdr = b"\x00\x07\x81\x80\x00\x00\x00\x00\x00\x00" + len(adds).to_bytes(2, "big")
+                out.append("PARSE " + (hdr + b"".join(adds)).hex())
+                hdr = b"\x00\x07\x81\x80\x00\x00" + len(adds).to_bytes(2, "big") + b"\x00\x00\x00\x00"
+                out.append("PARSE " + (hdr + b"".join(adds)).hex())
     return out
 
 
